@@ -37,7 +37,7 @@ PropOps == {[kind |-> "Set", path |-> <<[k |-> "key", id |-> "a"]>>,
             [kind |-> "Del", path |-> <<[k |-> "key", id |-> "a"]>>],
             [kind |-> "Get", path |-> <<[k |-> "key", id |-> "a"]>>]}
 
-Refl(h) == [shape |-> "refl1", ports |-> <<1>>, hs |-> <<h>>]
+Refl(h) == [shape |-> "refl1", ports |-> <<1>>, hs |-> <<h>>, ex |-> 1]
 
 OpsFor(s) ==
     {[op |-> "MakeScalar", ok |-> TRUE, v |-> v, h |-> h] :
